@@ -1,0 +1,20 @@
+//go:build verif
+
+package oauth
+
+import (
+	nutsCrypto "github.com/nuts-foundation/nuts-node/crypto"
+)
+
+// VerifDecorateKeyStore puts, for the verification harness, a decorator between the (v1) authorization server and the private
+// key store it consults (signing access tokens, and deciding whether a presented access token was signed by a key of this node),
+// so that the harness can let key store operations fail the way a remote key store backend can fail.
+// Must be called while no request is in flight. Returns false if s is not the authorization server of this package.
+func VerifDecorateKeyStore(s AuthorizationServer, wrap func(nutsCrypto.KeyStore) nutsCrypto.KeyStore) bool {
+	a, ok := s.(*authzServer)
+	if !ok {
+		return false
+	}
+	a.privateKeyStore = wrap(a.privateKeyStore)
+	return true
+}
